@@ -1,6 +1,7 @@
 import SqlgrepModel.Lemmas.ValueOrder
 import SqlgrepModel.Lemmas.FloatOrder
 import SqlgrepModel.Lemmas.NumericOrder
+import SqlgrepModel.Lemmas.UniqueValues
 /-
 C16 — value equality, ordering and hashing agree and form a total order.
 
@@ -255,6 +256,68 @@ example : compareValues (.int 3) (.real 0x4008000000000000) = .eq ∧ compareVal
 example : F64.isNaN 0x7ff8000000000000 = true ∧ compareValues (.int (2 ^ 63 - 1)) (.real 0x7ff8000000000000) = .lt ∧
     compareValues (.int (-(2 ^ 63))) (.real 0xfff0000000000000) = .gt := by decide
 example : (Value.int 1).valueType = (Value.int 2).valueType ∧ (Value.real 0).rank = (Value.real 1).rank := by decide
+
+/-! ## NEW (review gap 5): array_unique
+
+`uniqueValues xs` (Model/Eval.lean: fold of `insertUnique` into an ascending list = `BTreeSet::from_iter(xs)
+.into_iter()`; an insert of a value equal to a member keeps the member) — the function `array_unique` executes. It
+uses the derived order `Value.cmp`; its equality `cmp = Equal` is `==` (`cmp_eq_iff_eq`). -/
+
+/-- **what array_unique returns**: the result is strictly ascending in the order (SORTED order, not first-occurrence
+order; hence no two results are equal), and its members are exactly the FIRST occurrences of the equality classes
+of the input — `v` is returned iff `v` stands in `xs` at a position before which no value `==`-equal to `v` stands.
+So of `[0.0, -0.0]` the `0.0` is kept, of `[-0.0, 0.0]` the `-0.0`. A strictly ascending list is determined by its
+members, so this characterises the result completely. -/
+theorem array_unique_characterisation (xs : List Value) :
+    (uniqueValues xs).Pairwise (fun a b => cmp a b = .lt) ∧
+    ∀ v, v ∈ uniqueValues xs ↔ ∃ pre post, xs = pre ++ v :: post ∧ ∀ u ∈ pre, beq u v = false := by
+  refine ⟨Unique.sorted_uniqueValues xs, fun v => ?_⟩
+  rw [Unique.mem_uniqueValues_iff]
+  unfold Unique.FirstOcc
+  constructor
+  · rintro ⟨pre, post, h, hp⟩
+    refine ⟨pre, post, h, fun u hu => ?_⟩
+    have := hp u hu
+    rw [Ne, cmp_eq_iff_beq] at this
+    simpa using this
+  · rintro ⟨pre, post, h, hp⟩
+    refine ⟨pre, post, h, fun u hu => ?_⟩
+    rw [Ne, cmp_eq_iff_beq, hp u hu]; simp
+
+/-- **any two values deduplicated are equal, and only equal values are**: every input value is represented in the
+result by exactly one member, which is `==`-equal to it (the earliest equal input value); consequently two input
+values share their representative iff they are equal — as for groups (`grouped_are_equal`, here on one-element
+keys: `cmpList [u] [x] = Equal`). -/
+theorem array_unique_merges_exactly_equal_values (xs : List Value) (x : Value) (hx : x ∈ xs) :
+    (∃ u ∈ uniqueValues xs, beq u x = true ∧ cmpList [u] [x] = .eq) ∧
+    (∀ u w, u ∈ uniqueValues xs → w ∈ uniqueValues xs → beq u x = true → beq w x = true → u = w) ∧
+    (∀ y u, y ∈ xs → u ∈ uniqueValues xs → beq u x = true → (beq u y = true ↔ beq x y = true)) := by
+  refine ⟨?_, ?_, ?_⟩
+  · obtain ⟨u, hu, hf⟩ := Unique.exists_firstOcc xs x hx
+    refine ⟨u, (Unique.mem_uniqueValues_iff xs u).2 hf, (cmp_eq_iff_beq u x).1 hu, ?_⟩
+    simp [cmpList, hu, Ordering.then]
+  · intro u w hu hw hux hwx
+    rw [← cmp_eq_iff_beq] at hux hwx
+    have huw : cmp u w = .eq := Unique.cmp_eq_trans hux (Unique.cmp_eq_symm hwx)
+    rcases Unique.pairwise_mem (Unique.sorted_uniqueValues xs) hu hw with h | h | h
+    · exact h
+    · rw [huw] at h; exact absurd h (by decide)
+    · rw [Unique.cmp_eq_symm huw] at h; exact absurd h (by decide)
+  · intro y u _ _ hux
+    rw [← cmp_eq_iff_beq] at hux ⊢
+    rw [← cmp_eq_iff_beq, (cmp_T u x y).2.1 hux]
+
+/-- nothing is invented and nothing is lost: the result's members are input values, and it is empty only for an
+empty input -/
+theorem array_unique_members_are_inputs (xs : List Value) (v : Value) (h : v ∈ uniqueValues xs) : v ∈ xs := by
+  obtain ⟨pre, post, hx, _⟩ := (Unique.mem_uniqueValues_iff xs v).1 h
+  rw [hx]; simp
+
+-- non-vacuity: sorted output, first of equal values kept (-0.0 before 0.0; NaN payloads), INT/REAL not merged (D45)
+example : uniqueValues [.int 3, .int 1, .int 3, .int 2] = [.int 1, .int 2, .int 3] := rfl
+example : uniqueValues [negZero, posZero, one, posZero] = [negZero, one] ∧ uniqueValues [posZero, negZero] = [posZero] := ⟨rfl, rfl⟩
+example : uniqueValues [.real 0x7ff8000000000001, nan, one] = [one, .real 0x7ff8000000000001] := rfl
+example : uniqueValues [.text [98], .text [97], .text [98]] = [.text [97], .text [98]] := rfl
 
 /-- KNOWN FINDING D45 (kept as a kernel-checked witness): in the *derived* order, used for GROUP BY
 keys, MIN/MAX, PERCENTILE and array_unique, an INT and a REAL are ordered by their type, not by
